@@ -1111,3 +1111,70 @@ pub mod verif_hooks_receive {
         }
     }
 }
+
+/// Verification hooks (feature `verif`): the message-level receive and send paths.
+#[cfg(feature = "verif")]
+pub mod verif_hooks_message {
+    use super::*;
+    use crate::{transport::manager::TransportManager, types::protocol::ProtocolName};
+    use std::task::{Context, Poll, RawWaker, RawWakerVTable, Waker};
+
+    /// A Bitswap instance without any task running, plus the user's end of its event channel.
+    pub struct Kernel {
+        bitswap: Bitswap,
+        event_rx: Receiver<BitswapEvent>,
+        #[allow(dead_code)]
+        cmd_tx: Sender<BitswapCommand>,
+    }
+
+    fn noop_waker() -> Waker {
+        fn clone(_: *const ()) -> RawWaker { RawWaker::new(std::ptr::null(), &VTABLE) }
+        fn noop(_: *const ()) {}
+        static VTABLE: RawWakerVTable = RawWakerVTable::new(clone, noop, noop, noop);
+        unsafe { Waker::from_raw(RawWaker::new(std::ptr::null(), &VTABLE)) }
+    }
+
+    fn run<T>(future: impl std::future::Future<Output = T>) -> Option<T> {
+        let mut future = Box::pin(future);
+        let waker = noop_waker();
+        let mut cx = Context::from_waker(&waker);
+        match future.as_mut().poll(&mut cx) {
+            Poll::Ready(value) => Some(value),
+            Poll::Pending => None,
+        }
+    }
+
+    pub fn new_kernel(manager: &mut TransportManager) -> Kernel {
+        let (event_tx, event_rx) = tokio::sync::mpsc::channel(64);
+        let (cmd_tx, cmd_rx) = tokio::sync::mpsc::channel(64);
+        let config = Config {
+            protocol: ProtocolName::from("/verif/bitswap"),
+            codec: crate::codec::ProtocolCodec::UnsignedVarint(Some(config::MAX_MESSAGE_SIZE)),
+            event_tx,
+            cmd_rx,
+        };
+        let service = crate::protocol::transport_service::verif_hooks::new_service(manager);
+        Kernel { bitswap: Bitswap::new(service, config), event_rx, cmd_tx }
+    }
+
+    /// Hand one received message to the real handler: `Some(is_ok)`, or `None` if the handler suspended.
+    pub fn message_received(kernel: &mut Kernel, peer: PeerId, message: &[u8]) -> Option<bool> {
+        run(kernel.bitswap.on_message_received(peer, bytes::BytesMut::from(message))).map(|result| result.is_ok())
+    }
+
+    /// The next `BitswapEvent::Response` the user would see: (peer, entries).
+    pub fn next_response(kernel: &mut Kernel) -> Option<(PeerId, Vec<ResponseType>)> {
+        loop {
+            match kernel.event_rx.try_recv() {
+                Ok(BitswapEvent::Response { peer, responses }) => return Some((peer, responses)),
+                Ok(_) => continue,
+                Err(_) => return None,
+            }
+        }
+    }
+
+    /// Run the real `send_response` over `substream`: `Some(is_ok)`, or `None` if it suspended.
+    pub fn send_response_now(substream: &mut Substream, entries: Vec<ResponseType>) -> Option<bool> {
+        run(send_response(substream, entries)).map(|result| result.is_ok())
+    }
+}
